@@ -373,7 +373,13 @@ func runCheck(o *checkOpts) int {
 		for _, v := range vv {
 			r := natv[v.ID]
 			ok := r != nil && r.Outcome == "ok" && len(r.Notes) == len(v.Notes)
-			if ok {
+			hasPerm := false
+			for _, x := range v.Values {
+				if x.Kind == "perm" {
+					hasPerm = true // Go's own map order is not controllable natively
+				}
+			}
+			if ok && !hasPerm {
 				for i := range v.Notes {
 					if v.Notes[i].V != "?" && r.Notes[i].V != "?" && (v.Notes[i].K != r.Notes[i].K || v.Notes[i].V != r.Notes[i].V) {
 						ok = false
